@@ -43,8 +43,16 @@ Definition c18_not_blocked (c : case) : bool :=
 Definition c18_never_stalls (c : case) : bool :=
   if to_deleting (k_obj c) && negb (k_gone c) && k_own_fin c then k_err c || k_requeue c else true.
 
+(* C07: nobody but the controller's own requeue wakes a TrafficRouting object up: a reconcile that leaves it Finalizing (or still
+   routing in Progressing) without an error has asked for a requeue *)
+Definition c07_unfinished_means_requeue (c : case) : bool :=
+  if negb (to_deleting (k_obj c)) && negb (k_gone c) && negb (k_err c) && negb (k_panic c) &&
+     tphase_eqb (k_phase c) TpFinalizing && tphase_eqb (to_phase (k_obj c)) TpFinalizing
+  then k_requeue c else true.
+
 Definition judge (c : case) : list verdict :=
   [ if corresponds_tc c then VOk else VMismatch;
+    clause "C07_trafficrouting_cleanup_unfinished_means_requeue" (c07_unfinished_means_requeue c);
     clause "C09_trafficrouting_reconcile_does_not_panic" (negb (k_panic c));
     clause "C18_trafficrouting_finalizer_guard" (c18_finalizer_guard c);
     clause "C18_trafficrouting_deletion_not_blocked" (c18_not_blocked c);
